@@ -62,6 +62,11 @@ def chains(M):
         ('ordering only permutes the result', lambda: sorted(nm(orm.select(s for s in S if s.b > 2).order_by(orm.desc(S.name)))), lambda objs: sorted(s.name for s in objs if s.b > 2)),
         ('order_by on a projection keeps it distinct', lambda: list(orm.select(s.group for s in S if s.group is not None).order_by(lambda g: g.name)) and
          [g.name for g in orm.select(s.group for s in S if s.group is not None).order_by(lambda g: g.name)], lambda objs: sorted(set(s.group.name for s in objs if s.group is not None))),
+        ('exists() of a one-row query', lambda: S.select(lambda s: s.name == 'bob').exists(), lambda objs: True),
+        ('exists() of an empty query', lambda: S.select(lambda s: s.name == 'nobody').exists(), lambda objs: False),
+        ('sum of an empty result is 0', lambda: orm.sum(s.age for s in S if s.a > 100), lambda objs: sum(s.age for s in objs if s.a > 100)),
+        ('min / max / avg of an empty result is None', lambda: (orm.min(s.age for s in S if s.a > 100), orm.max(s.age for s in S if s.a > 100), orm.avg(s.age for s in S if s.a > 100)), lambda objs: (None, None, None)),
+        ('slice of a fetched result [:][2:9]', lambda: nm(orm.select(s for s in S).order_by(S.id)[:][2:9]), lambda objs: nm(sorted(objs, key=lambda s: s.id)[2:9])),
         ('limit(0)', lambda: nm(orm.select(s for s in S).order_by(S.id).limit(0)), lambda objs: []),
         ('[5:5]', lambda: nm(orm.select(s for s in S).order_by(S.id)[5:5]), lambda objs: []),
     ]
